@@ -36,6 +36,7 @@ def handleThr (args obs : List String) : Verdict := Id.run do
     let mut keys : List String := []
     let mut nAcq := 0
     let mut nPanicRel := 0
+    let mut nVerifRel := 0
     let mut nInj := 0
     let mut handovers := 0     -- acquisitions by a thread other than the previous holder
     let mut last : Option Nat := none
@@ -82,7 +83,11 @@ def handleThr (args obs : List String) : Verdict := Id.run do
         let how := if body.endsWith "p" then How.panic else How.drop
         let t := (body.dropEnd 1).toString.toNat?.getD 0
         if how == How.panic then nPanicRel := nPanicRel + 1
-        match step p s (Action.beginRelease t how) with
+        -- `v`: normal scope exit whose call-count verification panics; when the source drops the
+        -- verifiers inside `Drop::drop`, the rest of that body is skipped (first panic path)
+        let alt : Option Nat := if body.endsWith "v" && !p.injectorPanicPaths.isEmpty then some 0 else none
+        if body.endsWith "v" then nVerifRel := nVerifRel + 1
+        match step p s (Action.beginRelease t how alt) with
         | some s' => s := s'
         | none => agree := false; if why == "" then why := "release-not-enabled:" ++ e
       else agree := false
@@ -93,7 +98,7 @@ def handleThr (args obs : List String) : Verdict := Id.run do
     if kv obs "after" != some "0" then keys := keys ++ ["c04.fake-left-behind"]
     let ukeys := keys.eraseDups
     return { agree := agree, propOk := ukeys.isEmpty,
-             branch := "thr-T" ++ toString threads ++ (if handovers > 0 then "+handover" else "") ++ (if nPanicRel > 0 then "+unwind" else ""),
+             branch := "thr-T" ++ toString threads ++ (if handovers > 0 then "+handover" else "") ++ (if nPanicRel > 0 then "+unwind" else "") ++ (if nVerifRel > 0 then "+verifpanic" else ""),
              detail := "acq=" ++ toString nAcq ++ " handovers=" ++ toString handovers ++ (if agree then "" else " why=" ++ why) ++
                        String.join (ukeys.map (" key=" ++ ·)) }
   | _ => return bad "arity"
